@@ -29,6 +29,12 @@ import (
 
 const c15Deadline = 30 * time.Second
 
+// c15Sub is one subscription (filter, QoS).
+type c15Sub struct {
+	F string `json:"f"`
+	Q int    `json:"q"`
+}
+
 // ---------------------------------------------------------------- pipeline
 
 // c15Call is one invocation of the recording publish pipeline.
